@@ -418,7 +418,13 @@ func (c *Controller) scaleNodeGroup(nodegroup string, nodeGroup *NodeGroupState)
 	log.WithField("nodegroup", nodegroup).Infof("Reaper: There were %v empty nodes force deleted this round", forceRemoved)
 
 	if forceActionErr != nil {
-		log.WithField("nodegroup", nodegroup).Error(forceActionErr)
+		switch forceActionErr.(type) {
+		// early return when node is NOT in expected node group, same as for the other removal paths
+		case *cloudprovider.NodeNotInNodeGroup:
+			return 0, forceActionErr
+		default:
+			log.WithField("nodegroup", nodegroup).Error(forceActionErr)
+		}
 	}
 
 	// Perform a scale up, do nothing or scale down based on the nodes delta
